@@ -291,10 +291,16 @@ def widen_schedulers(ctx, r, cases):
         cases[i] = dict(cases[i], scheduler="processes")
 
 
+def corpus_cases():
+    """Minimised past failures and the shapes of the seeded / repaired defects: run first."""
+    d = core.VERIF / "harness" / "corpus" / "C09"
+    return [json.loads(f.read_text()) for f in sorted(d.glob("*.json"))] if d.exists() else []
+
+
 def gen_cases(ctx: Ctx, salt="cases", scale=1):
     r = ctx.rng(salt)
     cyc = itertools.cycle(CLASSES)
-    cases = []
+    cases = corpus_cases() if salt == "cases" else []
     n_exp = ctx.budget(6, 12) * scale
     n_seq = ctx.budget(8, 16) * scale
     n_dask = ctx.budget(5, 10) * scale
